@@ -86,6 +86,7 @@ class UnitCtor(Contract):
             yield "interned", z3.If(z3.Select(T.dom, k), r.ref == z3.Select(T.val, k), z3.Not(o.alive(r)))
         yield "dimension-fresh", z3.Implies(z3.Not(o.alive(r)), c.f(r, "dimension") == a.dimension.ref)
         yield "dimension-exponents", pointwise(c, VObj("Dimension", c.f(r, "dimension")), lambda i: dexp(c, a.dimension, i))
+        yield "dimension-identical", c.f(r, "dimension") == a.dimension.ref
         yield "table-grows", same_table_grows(c, "Unit._known")
 
 
@@ -388,6 +389,7 @@ class UnitQuantify(Contract):
         yield "unit-unprefixed", c.f(ru, "prefix") == IdentityPrefix.ref
         yield "unit-factors", c.f(ru, "factors") == o.f(a.self, "factors")
         yield "unit-dimension", pointwise(c, VObj("Dimension", c.f(ru, "dimension")), lambda i: dexp(o, VObj("Dimension", o.f(a.self, "dimension")), i))
+        yield "unit-dimension-identical", c.f(ru, "dimension") == o.f(a.self, "dimension")
         yield "magnitude-is-prefix-value", Num.nval(c.f(r, "magnitude")) == pval(o, VObj("Prefix", o.f(a.self, "prefix")))
         yield "magnitude-decimal-only-if-exponent-is", z3.Implies(
             Num.nkind(o.f(VObj("Prefix", o.f(a.self, "prefix")), "exponent")) != K_DEC, Num.nkind(c.f(r, "magnitude")) != K_DEC)
